@@ -104,8 +104,7 @@ theorem writeFile_ok (sch : Sched) (k : Nat) (fs : FS) (f : File)
   split at h <;> try (simp at h)
   split at h <;> try (simp at h)
   split at h <;> try (simp at h)
-  rename_i h0 h1 h2
-  simp [h0, h1, h2, get_write, get_chmod, get_create, objOf]
+  simp [get_write, get_chmod, get_create, objOf]
 
 /-- Under every fault schedule (errors, partial writes, a crash at any operation) the file that
 `WriteFile f` works on is afterwards untouched, or empty, or carries the requested mode and a prefix of
@@ -136,5 +135,407 @@ theorem writeFile_present (sch : Sched) (k : Nat) (fs : FS) (f : File) (q : Stri
   by_cases hq : f.path = q
   · exact .inr hq.symm
   · rw [writeFile_ne sch k fs f hq] at h; exact .inl h
+
+/-! ### first loop of ReplaceFiles -/
+
+/-- the removal loop only removes, and only paths of the list, under every schedule -/
+theorem removeLoop_get (sch : Sched) (ps : List String) :
+    ∀ (k : Nat) (fs : FS) (q : String),
+      get (removeLoop sch k fs ps).fs q = get fs q ∨
+      (get (removeLoop sch k fs ps).fs q = none ∧ q ∈ ps) := by
+  induction ps with
+  | nil => intro k fs q; exact .inl rfl
+  | cons p ps ih =>
+    intro k fs q
+    have step : get (removeLoop sch (k + 1) (erase fs p) ps).fs q = get fs q ∨
+        (get (removeLoop sch (k + 1) (erase fs p) ps).fs q = none ∧ q ∈ p :: ps) := by
+      rcases ih (k + 1) (erase fs p) q with h | ⟨h, hm⟩
+      · rw [h, get_erase]
+        by_cases hp : p = q
+        · right; simp [hp]
+        · left; simp [hp]
+      · exact .inr ⟨h, List.mem_cons_of_mem _ hm⟩
+    unfold removeLoop
+    split
+    · exact .inl rfl
+    · exact step
+    · exact .inl rfl
+    · exact step
+
+/-- when the removal loop completes, every listed path is gone and nothing else changed -/
+theorem removeLoop_ok (sch : Sched) (ps : List String) :
+    ∀ (k : Nat) (fs : FS), (removeLoop sch k fs ps).out = .ok →
+      ∀ q, get (removeLoop sch k fs ps).fs q = if q ∈ ps then none else get fs q := by
+  induction ps with
+  | nil => intro k fs _ q; simp [removeLoop]
+  | cons p ps ih =>
+    intro k fs h q
+    have step : (removeLoop sch (k + 1) (erase fs p) ps).out = .ok →
+        get (removeLoop sch (k + 1) (erase fs p) ps).fs q = if q ∈ p :: ps then none else get fs q := by
+      intro h'
+      rw [ih (k + 1) (erase fs p) h' q, get_erase]
+      by_cases hq : q ∈ ps
+      · simp [hq]
+      · by_cases hp : p = q
+        · simp [hp]
+        · have : ¬ q = p := fun e => hp e.symm
+          simp [hq, hp, this]
+    unfold removeLoop at h ⊢
+    split at h
+    · simp at h
+    · exact step h
+    · simp at h
+    · exact step h
+
+/-! ### second loop of ReplaceFiles -/
+
+/-- what a path holds after the files were written one after the other (later entries win) -/
+def expectAfter : List File → String → Option FileObj → Option FileObj
+  | [], _, b => b
+  | f :: r, q, b => expectAfter r q (if f.path = q then some (objOf f) else b)
+
+theorem expectAfter_not_mem (F : List File) (q : String) (b : Option FileObj)
+    (h : q ∉ F.map (·.path)) : expectAfter F q b = b := by
+  induction F generalizing b with
+  | nil => rfl
+  | cons f r ih =>
+    simp only [List.map_cons, List.mem_cons, not_or] at h
+    have : ¬ f.path = q := fun e => h.1 e.symm
+    simp [expectAfter, this, ih _ h.2]
+
+/-- the value is that of some entry with this path, or the base value if there is none -/
+theorem expectAfter_cases (F : List File) (q : String) (b : Option FileObj) :
+    (q ∉ F.map (·.path) ∧ expectAfter F q b = b) ∨
+    ∃ f ∈ F, f.path = q ∧ expectAfter F q b = some (objOf f) := by
+  induction F generalizing b with
+  | nil => exact .inl ⟨by simp, rfl⟩
+  | cons f r ih =>
+    simp only [expectAfter]
+    rcases ih (if f.path = q then some (objOf f) else b) with ⟨hn, he⟩ | ⟨g, hg, hp, he⟩
+    · by_cases hf : f.path = q
+      · exact .inr ⟨f, by simp, hf, by simp [hf, expectAfter_not_mem r q _ hn]⟩
+      · refine .inl ⟨?_, by simp [hf, expectAfter_not_mem r q _ hn]⟩
+        simp only [List.map_cons, List.mem_cons, not_or]
+        exact ⟨fun e => hf e.symm, hn⟩
+    · exact .inr ⟨g, List.mem_cons_of_mem _ hg, hp, he⟩
+
+/-- with pairwise distinct paths every file of the set is there with its own content and mode -/
+theorem expectAfter_nodup (F : List File) (hnd : (F.map (·.path)).Nodup) (b : Option FileObj)
+    (f : File) (hf : f ∈ F) : expectAfter F f.path b = some (objOf f) := by
+  induction F generalizing b with
+  | nil => simp at hf
+  | cons g r ih =>
+    simp only [List.map_cons, List.nodup_cons] at hnd
+    simp only [expectAfter]
+    rcases List.mem_cons.mp hf with rfl | hr
+    · simp [expectAfter_not_mem r _ _ hnd.1]
+    · exact ih hnd.2 _ hr
+
+theorem writeLoop_ok (b : Bool) (sch : Sched) (F : List File) :
+    ∀ (k : Nat) (fs : FS) (last : List String), (writeLoop b sch k fs last F).out = .ok →
+      (writeLoop b sch k fs last F).last = last ++ F.map (·.path) ∧
+      ∀ q, get (writeLoop b sch k fs last F).fs q = expectAfter F q (get fs q) := by
+  induction F with
+  | nil => intro k fs last _; simp [writeLoop, expectAfter]
+  | cons f r ih =>
+    intro k fs last h
+    unfold writeLoop at h ⊢
+    simp only at h ⊢
+    split at h
+    · next hok =>
+      obtain ⟨hl, hg⟩ := ih _ _ _ h
+      refine ⟨by simp [hl], fun q => ?_⟩
+      rw [hg q, expectAfter]
+      by_cases hq : f.path = q
+      · subst hq; simp [writeFile_ok sch k fs f hok]
+      · simp [hq, writeFile_ne sch k fs f hq]
+    · next hne => simp at h; exact absurd h (by simpa using hne)
+
+/-- (current code, `before = true`) under every schedule: whatever is on disk after the second loop
+was there before or is tracked; tracked paths are never forgotten. -/
+theorem writeLoop_tracked (sch : Sched) (F : List File) :
+    ∀ (k : Nat) (fs : FS) (last : List String),
+      (∀ p ∈ last, p ∈ (writeLoop true sch k fs last F).last) ∧
+      ∀ q, get (writeLoop true sch k fs last F).fs q ≠ none →
+        get fs q ≠ none ∨ q ∈ (writeLoop true sch k fs last F).last := by
+  induction F with
+  | nil => intro k fs last; exact ⟨fun p h => by simpa [writeLoop] using h, fun q h => .inl (by simpa [writeLoop] using h)⟩
+  | cons f r ih =>
+    intro k fs last
+    unfold writeLoop
+    simp only
+    split
+    · obtain ⟨hm, hp⟩ := ih (writeFile sch k fs f).k (writeFile sch k fs f).fs (last ++ [f.path])
+      refine ⟨fun p hpl => hm p (by simp [hpl]), fun q hq => ?_⟩
+      rcases hp q hq with h | h
+      · rcases writeFile_present sch k fs f q h with h' | h'
+        · exact .inl h'
+        · exact .inr (hm q (by simp [h']))
+      · exact .inr h
+    · refine ⟨fun p hpl => by simp [hpl], fun q hq => ?_⟩
+      rcases writeFile_present sch k fs f q hq with h' | h'
+      · exact .inl h'
+      · exact .inr (by simp [h'])
+
+/-- under every schedule (either variant): a file present afterwards was present before or belongs to the set -/
+theorem writeLoop_present (b : Bool) (sch : Sched) (F : List File) :
+    ∀ (k : Nat) (fs : FS) (last : List String) (q : String),
+      get (writeLoop b sch k fs last F).fs q ≠ none → get fs q ≠ none ∨ q ∈ F.map (·.path) := by
+  induction F with
+  | nil => intro k fs last q h; exact .inl (by simpa [writeLoop] using h)
+  | cons f r ih =>
+    intro k fs last q
+    unfold writeLoop
+    simp only
+    split
+    · intro hq
+      rcases ih _ _ _ q hq with h | h
+      · rcases writeFile_present sch k fs f q h with h' | h'
+        · exact .inl h'
+        · exact .inr (by simp [h'])
+      · exact .inr (by simp [h])
+    · intro hq
+      rcases writeFile_present sch k fs f q hq with h' | h'
+      · exact .inl h'
+      · exact .inr (by simp [h'])
+
+/-! ### ReplaceFiles -/
+
+/-- every file present in the managed folders is tracked by the manager or is one of `B` (bootstrap) -/
+def Tracked (B : List String) (s : St) : Prop := ∀ q, get s.fs q ≠ none → q ∈ s.last ∨ q ∈ B
+
+/-- every file of the abstract disk lies directly in one of the managed folders -/
+def InFolders (fs : FS) : Prop := ∀ q, get fs q ≠ none → dirOf q ∈ managedFolders
+
+/-- all paths of a file set lie directly in the managed folders -/
+def PathsManaged (F : List File) : Prop := ∀ f ∈ F, dirOf f.path ∈ managedFolders
+
+theorem replaceFiles_tracked (B : List String) (sch : Sched) (s : St) (F : List File)
+    (h : Tracked B s) : Tracked B (replaceFiles sch s F).st := by
+  intro q hq
+  unfold replaceFiles replaceFilesV at hq ⊢
+  simp only at hq ⊢
+  split at hq
+  · next hok =>
+    simp only [hok]
+    rcases (writeLoop_tracked sch F _ _ []).2 q hq with h1 | h1
+    · rw [removeLoop_ok sch s.last 0 s.fs hok q] at h1
+      by_cases hl : q ∈ s.last
+      · simp [hl] at h1
+      · simp only [hl, if_false] at h1
+        rcases h q h1 with h2 | h2
+        · exact absurd h2 hl
+        · exact .inr h2
+    · exact .inl h1
+  · next o hne =>
+    have hq' : get (removeLoop sch 0 s.fs s.last).fs q ≠ none := hq
+    have : get s.fs q ≠ none := by
+      rcases removeLoop_get sch s.last 0 s.fs q with h1 | ⟨h1, _⟩
+      · rw [h1] at hq'; exact hq'
+      · exact absurd h1 hq'
+    exact h q this
+
+theorem replaceFiles_ok_get (b : Bool) (sch : Sched) (s : St) (F : List File)
+    (h : (replaceFilesV b sch s F).out = .ok) :
+    (replaceFilesV b sch s F).st.last = F.map (·.path) ∧
+    ∀ q, get (replaceFilesV b sch s F).st.fs q =
+      expectAfter F q (if q ∈ s.last then none else get s.fs q) := by
+  unfold replaceFilesV at h ⊢
+  simp only at h ⊢
+  split at h
+  · next hok =>
+    simp only [hok]
+    obtain ⟨hl, hg⟩ := writeLoop_ok b sch F _ _ [] h
+    refine ⟨by simpa using hl, fun q => ?_⟩
+    rw [hg q, removeLoop_ok sch s.last 0 s.fs hok q]
+  · next o hne => exact absurd h (by simpa using hne)
+
+theorem replaceFiles_ok (sch : Sched) (s : St) (F : List File)
+    (h : (replaceFiles sch s F).out = .ok) :
+    (replaceFiles sch s F).st.last = F.map (·.path) ∧
+    ∀ q, get (replaceFiles sch s F).st.fs q =
+      expectAfter F q (if q ∈ s.last then none else get s.fs q) :=
+  replaceFiles_ok_get true sch s F h
+
+theorem replaceFiles_present (b : Bool) (sch : Sched) (s : St) (F : List File) (q : String)
+    (h : get (replaceFilesV b sch s F).st.fs q ≠ none) :
+    get s.fs q ≠ none ∨ q ∈ F.map (·.path) := by
+  have rem : ∀ {x}, get (removeLoop sch 0 s.fs s.last).fs q = x → x ≠ none → get s.fs q ≠ none := by
+    intro x hx hn
+    rcases removeLoop_get sch s.last 0 s.fs q with h1 | ⟨h1, _⟩
+    · rw [← h1, hx]; exact hn
+    · rw [h1] at hx; exact absurd hx.symm hn
+  unfold replaceFilesV at h
+  simp only at h
+  split at h
+  · rcases writeLoop_present b sch F _ _ [] q h with h1 | h1
+    · exact .inl (rem rfl h1)
+    · exact .inr h1
+  · exact .inl (rem rfl h)
+
+theorem replaceFiles_inFolders (sch : Sched) (s : St) (F : List File)
+    (hs : InFolders s.fs) (hF : PathsManaged F) : InFolders (replaceFiles sch s F).st.fs := by
+  intro q hq
+  rcases replaceFiles_present true sch s F q hq with h | h
+  · exact hs q h
+  · obtain ⟨f, hf, rfl⟩ := List.mem_map.mp h
+    exact hF f hf
+
+/-! ### ClearFolders -/
+
+theorem mem_insertSorted (p q : String) (l : List String) :
+    q ∈ insertSorted p l ↔ q = p ∨ q ∈ l := by
+  induction l with
+  | nil => simp [insertSorted]
+  | cons a r ih =>
+    unfold insertSorted
+    split
+    · simp
+    · simp [ih]; constructor <;> (intro h; rcases h with h | h | h <;> simp [h])
+
+theorem mem_sortPaths (q : String) (l : List String) : q ∈ sortPaths l ↔ q ∈ l := by
+  induction l with
+  | nil => simp [sortPaths]
+  | cons a r ih => simp [sortPaths, mem_insertSorted, ih]
+
+theorem mem_entries (fs : FS) (d q : String) :
+    q ∈ entries fs d ↔ get fs q ≠ none ∧ dirOf q = d := by
+  simp [entries, mem_sortPaths, mem_keys_iff]
+
+theorem clearEntries_get (sch : Sched) (ps : List String) :
+    ∀ (k : Nat) (fs : FS) (q : String),
+      get (clearEntries sch k fs ps).fs q = get fs q ∨
+      (get (clearEntries sch k fs ps).fs q = none ∧ q ∈ ps ∧ q ∉ ignorePaths) := by
+  induction ps with
+  | nil => intro k fs q; exact .inl rfl
+  | cons p ps ih =>
+    intro k fs q
+    unfold clearEntries
+    split
+    · rcases ih k fs q with h | ⟨h, hm, hi⟩
+      · exact .inl h
+      · exact .inr ⟨h, List.mem_cons_of_mem _ hm, hi⟩
+    · next hign =>
+      have hp : p ∉ ignorePaths := by simpa using hign
+      have one : get (erase fs p) q = get fs q ∨ (get (erase fs p) q = none ∧ q ∈ p :: ps ∧ q ∉ ignorePaths) := by
+        rw [get_erase]
+        by_cases hpq : p = q
+        · right; subst hpq; simp [hp]
+        · left; simp [hpq]
+      split
+      · exact .inl rfl
+      · exact one
+      · exact .inl rfl
+      · rcases ih (k + 1) (erase fs p) q with h | ⟨h, hm, hi⟩
+        · rw [h]; exact one
+        · exact .inr ⟨h, List.mem_cons_of_mem _ hm, hi⟩
+
+theorem clearEntries_ok (sch : Sched) (ps : List String) :
+    ∀ (k : Nat) (fs : FS), (clearEntries sch k fs ps).out = .ok →
+      ∀ q, get (clearEntries sch k fs ps).fs q =
+        if q ∈ ps ∧ q ∉ ignorePaths then none else get fs q := by
+  induction ps with
+  | nil => intro k fs _ q; simp [clearEntries]
+  | cons p ps ih =>
+    intro k fs h q
+    unfold clearEntries at h ⊢
+    by_cases hign : ignorePaths.contains p = true
+    · rw [if_pos hign] at h ⊢
+      have hp : p ∈ ignorePaths := by simpa using hign
+      rw [ih k fs h q]
+      by_cases hq : q = p
+      · subst hq; simp [hp]
+      · simp [hq]
+    · rw [if_neg hign] at h ⊢
+      have hp : p ∉ ignorePaths := by simpa using hign
+      cases hs : sch k with
+      | some f => cases f <;> simp [hs] at h
+      | none =>
+        simp only [hs] at h ⊢
+        rw [ih (k + 1) (erase fs p) h q, get_erase]
+        by_cases hq : q = p
+        · subst hq; simp [hp]
+        · have : ¬ p = q := fun e => hq e.symm
+          simp [hq, this]
+
+theorem clearEntries_noFaults (ps : List String) :
+    ∀ (k : Nat) (fs : FS), (clearEntries noFaults k fs ps).out = .ok := by
+  induction ps with
+  | nil => intro k fs; rfl
+  | cons p ps ih =>
+    intro k fs
+    unfold clearEntries
+    split
+    · exact ih k fs
+    · simp only [noFaults]; exact ih (k + 1) _
+
+/-- `ClearFolders` only removes, and never a bootstrap file — under every fault schedule -/
+theorem clearLoop_get (sch : Sched) (ds : List String) :
+    ∀ (k : Nat) (fs : FS) (q : String),
+      get (clearLoop sch k fs ds).fs q = get fs q ∨
+      (get (clearLoop sch k fs ds).fs q = none ∧ q ∉ ignorePaths) := by
+  induction ds with
+  | nil => intro k fs q; exact .inl rfl
+  | cons d ds ih =>
+    intro k fs q
+    unfold clearLoop
+    split
+    · exact .inl rfl
+    · exact .inl rfl
+    · have one := clearEntries_get sch (entries fs d) (k + 1) fs q
+      simp only
+      split
+      · rcases ih (clearEntries sch (k + 1) fs (entries fs d)).k
+            (clearEntries sch (k + 1) fs (entries fs d)).fs q with h | h
+        · rw [h]
+          rcases one with h1 | ⟨h1, _, hi⟩
+          · exact .inl h1
+          · exact .inr ⟨h1, hi⟩
+        · exact .inr h
+      · rcases one with h1 | ⟨h1, _, hi⟩
+        · exact .inl h1
+        · exact .inr ⟨h1, hi⟩
+
+/-- when `ClearFolders` completes, exactly the non-bootstrap files of the listed folders are gone -/
+theorem clearLoop_ok (sch : Sched) (ds : List String) :
+    ∀ (k : Nat) (fs : FS), (clearLoop sch k fs ds).out = .ok →
+      ∀ q, get (clearLoop sch k fs ds).fs q =
+        if dirOf q ∈ ds ∧ q ∉ ignorePaths then none else get fs q := by
+  induction ds with
+  | nil => intro k fs _ q; simp [clearLoop]
+  | cons d ds ih =>
+    intro k fs h q
+    unfold clearLoop at h ⊢
+    cases hs : sch k with
+    | some f => cases f <;> simp [hs] at h
+    | none =>
+      simp only [hs] at h ⊢
+      cases hok : (clearEntries sch (k + 1) fs (entries fs d)).out with
+      | failed => simp [hok] at h
+      | crashed => simp [hok] at h
+      | ok =>
+        simp only [hok] at h ⊢
+        rw [ih _ _ h q, clearEntries_ok sch _ _ _ hok q]
+        by_cases hi : q ∈ ignorePaths
+        · simp [hi]
+        · by_cases hds : dirOf q ∈ ds
+          · simp [hi, hds]
+          · by_cases hd : dirOf q = d
+            · by_cases hg : get fs q = none
+              · simp [hi, hds, hd, hg]
+              · have : q ∈ entries fs d := (mem_entries fs d q).2 ⟨hg, hd⟩
+                simp [hi, hds, hd, this]
+            · have : q ∉ entries fs d := fun hm => hd ((mem_entries fs d q).1 hm).2
+              simp [hi, hds, hd, this]
+
+theorem clearLoop_noFaults (ds : List String) :
+    ∀ (k : Nat) (fs : FS), (clearLoop noFaults k fs ds).out = .ok := by
+  induction ds with
+  | nil => intro k fs; rfl
+  | cons d ds ih =>
+    intro k fs
+    unfold clearLoop
+    simp only [noFaults, clearEntries_noFaults]
+    exact ih _ _
 
 end NGF.FileMgr
